@@ -185,12 +185,18 @@ Definition reviewed_sites : list (string * Z * string) := [
    "s.dirties = map{} under muPairs.RLock: every other access is the markDirty closure under muPairs.Lock (excluded by the RLock) or getOrderedDirtyPairs in Commit itself (same goroutine)");
   ("c25-unguarded:coreV2/state/swap/swapV2.go:SwapV2.Commit:SwapV2.dirtiesOrders", 1,
    "s.dirtiesOrders = map{} under muPairs.RLock: every other access is the markDirtyOrders closure under muPairs.Lock (excluded by the RLock) or getOrderedDirtyOrderPairs in Commit itself (same goroutine)");
+  ("c25-lock-not-released:coreV2/state/candidates/candidates.go:Candidates.Commit:Candidates.muDeletedCandidates", 1,
+   "returns the rlp encoding error with the lock still held (error path only): State.Commit hands the error to Blockchain.Commit, which panics on it - the process stops, nobody waits for the lock; rlp encoding of this type does not fail (re-checked by the translator: blockchain.go still panics on the error)");
+  ("c25-lock-not-released:coreV2/state/waitlist/waitlist.go:WaitList.Commit:Model.lock", 1,
+   "returns the rlp encoding error with the lock still held (error path only): State.Commit hands the error to Blockchain.Commit, which panics on it - the process stops, nobody waits for the lock; rlp encoding of this type does not fail (re-checked by the translator: blockchain.go still panics on the error)");
+  ("c25-lock-not-released:coreV2/state/frozenfunds/frozen_funds.go:FrozenFunds.Commit:Model.lock", 1,
+   "returns the rlp encoding error with the lock still held (error path only): State.Commit hands the error to Blockchain.Commit, which panics on it - the process stops, nobody waits for the lock; rlp encoding of this type does not fail (re-checked by the translator: blockchain.go still panics on the error)");
   ("c25-relock:coreV2/state/validators/validators.go:Validators.IsValidator->Validators.GetValidators:Validators.lock", 0,
    "RLock inside RLock deadlocks only if another goroutine asks for the write lock in between; IsValidator is called only by Candidates.DeleteCandidate (block execution); the write lock is requested by block execution itself and by Count(), reached only from IsDelegatorStakeAllowed (Delegate: DeliverTx, and CheckTx which the local ABCI client serialises with block execution); no API/CLI handler calls either (re-checked by the translator)")
 ]%string%Z.
 
 Definition all_static_keys : list string :=
-  (xlate_unguarded ++ xlate_lock_cycles ++ xlate_relocks ++ xlate_nonatomic_fills)%list.
+  (xlate_unguarded ++ xlate_lock_leaks ++ xlate_lock_cycles ++ xlate_relocks ++ xlate_nonatomic_fills)%list.
 
 Definition is_reviewed (k : string) : bool := existsb (fun r => String.eqb (fst r) k) xlate_reviewed.
 
